@@ -40,9 +40,21 @@ async def scenario(conn, log):
     line = await proc.stdout.readline()
     log.append(('line', line))
     chan2, sess2 = await conn.create_session(asyncssh.SSHClientSession, 'y')
+    # several global requests in flight at once (remote port forwards)
+    listeners = await asyncio.gather(
+        *(conn.forward_remote_port('', 0, '127.0.0.1', 2222)
+          for _ in range(3)))
+    log.append(('listeners', len(listeners)))
+    for lst in listeners[:2]:
+        lst.close()
+    await asyncio.gather(*(lst.wait_closed() for lst in listeners[:2]))
     sftp = await conn.start_sftp_client()
     names = await sftp.listdir('.')
     log.append(('names', sorted(names)))
+    # several SFTP requests in flight at once
+    res3 = await asyncio.gather(sftp.stat('.'), sftp.listdir('.'),
+                                sftp.exists('nope'), sftp.getcwd())
+    log.append(('multi', len(res3)))
     async with sftp.open('f.txt', 'w') as f:
         await f.write('data' * 100)
     st = await sftp.stat('f.txt')
@@ -84,6 +96,9 @@ class Run:
 
             def begin_auth(self, username):
                 return False
+
+            def server_requested(self, listen_host, listen_port):
+                return True
 
         class Cli(asyncssh.SSHClient):
             def connection_made(self, conn):
